@@ -98,6 +98,8 @@ def mk_matrix_corr(cx, T, N, pattern):
         for i in range(N):
             for j in range(N):
                 m[i, j], _ = lib.mk_obs(cx, 'g%d_%d%d' % (t, i, j), {'e|r1': CFG})
+                if i == j:
+                    m[i, j] = m[i, j] + 2.0 * N        # generic replay data are then diagonally dominant (positive definite); still arbitrary symbolically
         content.append(m)
     return pe.Corr(content)
 
@@ -167,6 +169,51 @@ def h_gevp(cx, N, T, pattern, t0, sort, method, ts=None):
             cx.prove(w[N - 1 - s] >= w[N - 2 - s], 'eigenvalues decrease with the state index [t=%d,%d]' % (t, s))
 
 
+def h_prune(cx, N, Ntrunc, T, pattern, tproj=2, t0proj=1, base=False):
+    """Corr.prune: with v_0..v_{Ntrunc-1} the GEVP vectors of the base matrix at (t0proj, tproj), the symmetrised pruned matrix must be
+    V^T G_sym(t) V (value and every fluctuation) - this is what makes the GEVP of the pruned matrix see the same lowest states, also for non-symmetric input"""
+    import pyerrors as pe
+    rec = {}
+    install(cx, rec)
+    corr = mk_matrix_corr(cx, T, N, pattern)
+    bm = mk_matrix_corr(cx, T, N, [True] * T) if base else None
+    calls = []
+    real_gevp = pe.Corr.GEVP
+
+    def gevp(self, *a, **k):
+        out = real_gevp(self, *a, **k)
+        calls.append((self, a, k, out))
+        return out
+    cx.patch(pe.Corr, 'GEVP', gevp)
+    kw = dict(basematrix=bm) if base else {}
+    res = corr.prune(Ntrunc, tproj=tproj, t0proj=t0proj, **kw)
+    cx.expect(len(calls) == 1 and calls[0][0] is (bm if base else corr), 'one GEVP on the base matrix')
+    if len(calls) != 1:
+        return
+    _, a, k, vecs = calls[0]
+    args = dict(zip(('t0', 'ts', 'sort'), a), **k)
+    cx.expect(args.get('t0') == t0proj and args.get('ts') == tproj and args.get('sort', 'Eigenvalue') is None, 'GEVP at (t0proj, tproj) with sort=None', str(args))
+    cx.expect(isinstance(res, pe.Corr) and res.T == T and res.N == Ntrunc, 'shape of the pruned correlator')
+    V = [np.asarray(vecs[s], dtype=object) for s in range(Ntrunc)]
+    for t in range(T):
+        if corr.content[t] is None:
+            cx.expect(res.content[t] is None, 'undefined timeslice stays undefined [%d]' % t)
+            continue
+        if not cx.expect(res.content[t] is not None, 'defined timeslice stays defined [%d]' % t):
+            continue
+        G = corr.content[t]
+        P = res.content[t]
+        for i in range(Ntrunc):
+            for j in range(i, Ntrunc):
+                lhs = 0.5 * (P[i, j] + P[j, i])
+                rhs = None
+                for x in range(N):
+                    for y in range(N):
+                        term = (0.5 * (G[x, y] + G[y, x])) * (V[i][x] * V[j][y])
+                        rhs = term if rhs is None else rhs + term
+                lib.obs_equiv(cx, lhs, rhs, 'sym(pruned)[%d,%d] = v_i^T G_sym v_j [t=%d]' % (i, j, t))
+
+
 def h_bad(cx):
     import pyerrors as pe
     rec = {}
@@ -190,7 +237,7 @@ def h_bad(cx):
         cx.fail('N=1 accepted')
 
 
-HARNESSES = dict(gevp=h_gevp, bad=h_bad)
+HARNESSES = dict(gevp=h_gevp, bad=h_bad, prune=h_prune)
 
 
 def jobs(tier, seed):
@@ -202,6 +249,8 @@ def jobs(tier, seed):
     add('gevp', N=2, T=4, pattern=[True, True, False, True], t0=0, sort='Eigenvalue', method='eigh')
     add('gevp', N=2, T=4, pattern=[True, True, True, True], t0=1, sort='Eigenvalue', method='eigh')
     add('bad')
+    add('prune', N=3, Ntrunc=2, T=3, pattern=[True, True, True])
+    add('prune', N=3, Ntrunc=2, T=4, pattern=[True, True, True, False], base=True)
     add('gevp', N=2, T=3, pattern=[True, True, True], t0=0, sort=None, method='cholesky', ts=1)
     if tier == 'thorough':
         add('gevp', N=2, T=3, pattern=[True, True, True], t0=1, sort='Eigenvalue', method='cholesky')
